@@ -136,15 +136,15 @@ def run_batch(programs, tag="b", sanitize=False, keep=False):
             out.update(run_batch(programs[:mid], tag, sanitize))
             out.update(run_batch(programs[mid:], tag, sanitize))
             return out
-        rc, stdout, stderr = run_tu(workdir, timeout=max(30, 2 * len(programs)))
+        rc, stdout, stderr = run_tu(workdir, timeout=max(20, len(programs)))
         if rc != 0:
             # a crash or a hang (sanitizer report, segfault from a null dereference the pruning missed,
             # a goto cycle ...): run the programs one by one, each under a short deadline
             for p in programs:
-                rc1, so1, se1 = run_tu(workdir, only=p.pid, timeout=10)
+                rc1, so1, se1 = run_tu(workdir, only=p.pid, timeout=3)
                 parse_lines(so1, out)
                 if rc1 == "timeout":
-                    out[p.pid]["crash"] = "timeout: the generated code did not terminate within 10 s"
+                    out[p.pid]["crash"] = "timeout: the generated code did not terminate within 3 s"
                 elif rc1 != 0:
                     out[p.pid]["crash"] = f"exit {rc1}: " + se1[-1500:]
             return out
